@@ -646,7 +646,7 @@ class IntermediateCodeGen(AbstractCodeGen):
 
     # noinspection PyUnusedLocal
     def genDisplayHint(self, data):
-        return data[0]
+        return self.textFilter('display-hint', data[0])
 
     # noinspection PyUnusedLocal
     def genDefVal(self, data, objname=None):
@@ -800,7 +800,7 @@ class IntermediateCodeGen(AbstractCodeGen):
         return data[0]
 
     def genProductRelease(self, data):
-        return data[0]
+        return self.textFilter('product-release', data[0])
 
     def genEnumSpec(self, data):
         items = data[0]
